@@ -1675,6 +1675,72 @@ theorem closed_line_sound (hrf : RoundFloatNegFact) {y : YearDecl} {S : SSet} (h
     Val.NN v = true ∧ Val.isNum v = true :=
   nnLine_sound_partial5 hrf (closedWith_line hS hcm hl hin) inst vs is fs ha hb v hrun
 
+/-! ## Round 6: `round(float, -k)` after the model split (`Val.roundFloatNegOf` over the abstract rounded value) -/
+
+theorem roundFloatNegOf_ok (z : F64) (r : Val) (h : Val.roundFloatNegOf z = .ok r) : r = .float z := by
+  cases z with
+  | inf s' => cases h
+  | nan => injection h with h; exact h.symm
+  | finite n' m' e' => injection h with h; exact h.symm
+
+/-- the sign argument over an ABSTRACT numerator `N` -/
+theorem roundFloatNeg_aux (s : Bool) (m e N : Nat) (r : Val) (hN : m = 0 → N = 0)
+    (h : Val.roundFloatNegOf (F64.ofScaled s N 1) = .ok r) :
+    r.isNum = true ∧ (F64.isNeg (F64.finite s m e) = false → r.NN = true) := by
+  have hr := roundFloatNegOf_ok _ r h
+  subst hr
+  refine ⟨rfl, fun hf => (NN_float _).2 (isNeg_ofScaled_or s N 1 ?_)⟩
+  rcases F64.notNeg_finite hf with h1 | h1
+  · exact Or.inl h1
+  · exact Or.inr (hN h1)
+
+theorem roundFloatNeg_finite (s : Bool) (m e k : Nat) :
+    Val.roundFloatNeg (F64.finite s m e) k =
+      if k > 308 then .ok (.float (F64.finite s 0 0))
+      else Val.roundFloatNegOf
+        (F64.ofScaled s (F64.rneDiv (m * 2 ^ e) (F64.one * 10 ^ k) * 10 ^ k * F64.one) 1) := rfl
+
+theorem roundFloatNegFact : RoundFloatNegFact := by
+  intro f k r h
+  cases f with
+  | nan => injection h with h; subst h; exact ⟨rfl, fun hf => (NN_float _).2 hf⟩
+  | inf s => injection h with h; subst h; exact ⟨rfl, fun hf => (NN_float _).2 hf⟩
+  | finite s m e =>
+    rw [roundFloatNeg_finite] at h
+    by_cases hk : k > 308
+    · rw [if_pos hk] at h
+      injection h with h; subst h
+      exact ⟨rfl, fun _ => (NN_float _).2 (by simp [F64.isNeg])⟩
+    · rw [if_neg hk] at h
+      exact roundFloatNeg_aux s m e _ r (fun hm => rneDiv_zero_mul m _ _ _ _ hm) h
+
+/-- **Soundness of the sign analysis (the variant that treats `sum(...)` as unknown) — UNCONDITIONAL.**
+If `nnLine y S c l = true` then for every instance `inst` and all stores `vs is fs` such that
+(a) every input that evaluates is not negative (`Val.NN`: a float that is not `< 0.0`, an int `≥ 0`, any non-number) and
+(b) every stored value under a key `k` with `keyIn S k` (class = text before the first `:`/`.`, line = text after the
+last `.`, both looked up by `code` in `S`) is a not-negative NUMBER:
+whenever line `l` of class `c` evaluates to a value `v`, `v` is a not-negative number. -/
+theorem nnLine_sound {y : YearDecl} {S : SSet} {c : ClassDecl} {l : LineDecl}
+    (h : nnLine y S c l = true) (inst : Option String)
+    (vs : String → Option Val) (is : String → InpRes Val) (fs : String → Bool)
+    (ha : ∀ k v, is k = .ok v → Val.NN v = true)
+    (hb : ∀ k v, vs k = some v → keyIn S k = true → Val.NN v = true ∧ Val.isNum v = true)
+    (v : Val) (hrun : run vs is fs (evalLine y c inst l) = .val v) :
+    Val.NN v = true ∧ Val.isNum v = true :=
+  nnLine_sound_partial5 roundFloatNegFact h inst vs is fs ha hb v hrun
+
+/-- `closed_line_sound` without hypothesis: in a closed set every line only returns not-negative numbers as long as
+the stored values of the lines of the set are not-negative numbers -/
+theorem closed_line_sound' {y : YearDecl} {S : SSet} (hS : closedWith false y S = true)
+    {c : ClassDecl} (hcm : c ∈ y.classes) {l : LineDecl} (hl : l ∈ c.lines)
+    (hin : S.has (code (nats c.name)) (code (nats l.name)) = true) (inst : Option String)
+    (vs : String → Option Val) (is : String → InpRes Val) (fs : String → Bool)
+    (ha : ∀ k v, is k = .ok v → Val.NN v = true)
+    (hb : ∀ k v, vs k = some v → keyIn S k = true → Val.NN v = true ∧ Val.isNum v = true)
+    (v : Val) (hrun : run vs is fs (evalLine y c inst l) = .val v) :
+    Val.NN v = true ∧ Val.isNum v = true :=
+  closed_line_sound roundFloatNegFact hS hcm hl hin inst vs is fs ha hb v hrun
+
 end HabuVerif.Sign
 
 section AxiomCheck2
@@ -1704,4 +1770,7 @@ open HabuVerif.Sign
 #print axioms key_sound
 #print axioms nnLine_sound_partial5
 #print axioms closed_line_sound
+#print axioms roundFloatNegFact
+#print axioms nnLine_sound
+#print axioms closed_line_sound'
 end AxiomCheck2
